@@ -1,0 +1,14 @@
+//go:build verif
+// +build verif
+
+package clusters
+
+import (
+	proxyv1alpha1 "github.com/kubewharf/kubegateway/pkg/apis/proxy/v1alpha1"
+)
+
+// VerifStopFlowControls removes every flow-control schema of the cluster, which stops their meter goroutines.
+// Verification harnesses call it for clusters that have been deleted, so that a virtual-time bubble can end.
+func (c *ClusterInfo) VerifStopFlowControls() {
+	c.flowcontrol.Sync(proxyv1alpha1.FlowControl{})
+}
